@@ -228,7 +228,7 @@ def compile_batch(traces, d):
             fp.write("\n".join({"cxx": cpp, "c": c, "f": f}[name]) + "\n")
         p = subprocess.run(cmd, cwd=d, stdout=subprocess.PIPE, stderr=subprocess.STDOUT, text=True)
         if p.returncode != 0:
-            res[name] = ("compile-error", p.stdout[-1500:])
+            res[name] = ("compile-error", p.stdout[:1500] + "\n...\n" + p.stdout[-400:])
             continue
         p = subprocess.run([os.path.join(d, "o_" + name)], cwd=d, stdout=subprocess.PIPE, text=True)
         vals = {}
